@@ -141,7 +141,7 @@ def gen_conn(rng, v6=False):
     peer = ('2001:db8::%x' % rng.randrange(2, 200)) if v6 else ('192.168.0.%d' % rng.randrange(2, 250))
     d = {'my_addr': me, 'peer_addr': peer,
          'my_auth': {'id': rng.choice(['alice@example.org', 'alice.example.org', '10.0.0.1', '2001:db8::77', 'a@b', '@example.org', '@', 'alice@',
-                                  '10.0.0.256', '1.2.3', '::ffff:10.0.0.1', 'x' * rng.randrange(1, 300)]), 'psk': 'secret%d' % rng.randrange(99)},
+                                  '10.0.0.256', '1.2.3', '::ffff:10.0.0.1', 'x' * rng.randrange(1, 300)]), 'psk': rng.choice(['secret%d' % rng.randrange(99), 'contrase\u00f1a-%d' % rng.randrange(99), 'p\u00e4ss-\u4e2d\u6587-\U0001f511', ''])},
          'peer_auth': {'id': rng.choice(['bob@example.org', 'bob.example.org', '10.0.0.2', '@bob', 'fe80::1']), 'psk': 'other'}, 'protect': []}
     if rng.random() < 0.2:
         d['my_auth'].pop('id')
